@@ -393,10 +393,46 @@ def governing(o, name):
     return best[1], "prefix%d" % min(nmatch, 4)
 
 
-def expect(o, op, name, arg=None):
+def flat_tables(cls):
+    """The tables `update_traits_class_dict` really builds (known finding F55): the class's own declarations, then
+    the ALREADY FLATTENED tables of the direct bases in the order of the bases, first entry wins; every class table
+    gets '' -> Python() when it has no '' wildcard.  -> (exact, wild)"""
+    exact, wild = dict(cls.exact), dict(cls.wild)
+    for b in cls.bases:
+        be, bw = flat_tables(b)
+        for n, d in be.items():
+            exact.setdefault(n, d)
+        for n, d in bw.items():
+            wild.setdefault(n, d)
+    wild.setdefault("", PY_DEFAULT)
+    return exact, wild
+
+
+def governing_flat(o, name):
+    """`governing` under the first-base-wins reading of F55 instead of the MRO."""
+    if name in o.itraits:
+        return o.itraits[name], "instance"
+    exact, wild = flat_tables(o.cls)
+    if name in exact:
+        return exact[name], "class"
+    p = max((p for p in wild if name.startswith(p)), key=len)
+    return wild[p], ("default" if p == "" else "prefix")
+
+
+def expect_flat(o, vals_before, op, name, arg=None):
+    """Outcome and governing declaration under the F55 reading, on a shadow of the object as it was before the
+    operation (nothing of `o` is changed)."""
+    sh = RefObj(o.cls)
+    sh.itraits = dict(o.itraits)
+    sh.vals = dict(vals_before)
+    exp, d, _ = expect(sh, op, name, arg, gov=governing_flat)
+    return exp, d
+
+
+def expect(o, op, name, arg=None, gov=None):
     """What the property says the operation does: canonical outcome (without the
     g= part), and the declaration that governs."""
-    d, route = governing(o, name)
+    d, route = (gov or governing)(o, name)
     k = d.kind
     if op == "get":
         if k in ("event", "disallow"):
@@ -627,6 +663,44 @@ def mi_history(rng):
     t = 80
     for _ in range(rng.randint(1, 6)):
         op, t = rand_access(rng, "d", rng.choice(names), t)
+        ops.append(op)
+    return "res|" + ";".join(ops)
+
+
+def mi_same_prefix_history(rng):
+    """Two or three HasTraits bases that define the SAME wildcard prefix differently - an explicit wildcard, or the
+    '' prefix that carries the class default (HasStrictTraits / HasPrivateTraits bases next to plain ones) - in
+    every order of the bases; names matching the shared prefix and undeclared names (which probe '')."""
+    k = rng.choice([2, 2, 3])
+    shared = rng.choice(["foo_", "x_", "q_", "_", "xy_"])
+    ops, tag = [], 1
+    names = []
+    for i in range(k):
+        cn = "ABC"[i]
+        root = rng.choice(["H", "S", "P", "H"])
+        decls = []
+        if rng.random() < 0.8:
+            decls.append("%s=%s" % (shared, rand_spec(rng, tag)))
+            tag += 1
+        if rng.random() < 0.3:
+            decls.append("%s=%s" % (rng.choice(["zz_", "q", "x", "_"]) , rand_spec(rng, tag)))
+            tag += 1
+            if decls[-1].split("=")[0] == shared or decls[-1].split("=")[0] in [d.split("=")[0] for d in decls[:-1]]:
+                decls.pop()
+        ops.append("cls %s %s %s" % (cn, root, ",".join(decls) or "-"))
+        names.append(cn)
+    order = names[:]
+    rng.shuffle(order)
+    own = "-"
+    if rng.random() < 0.15:
+        own = "%s=%s" % (shared, rand_spec(rng, tag))
+        tag += 1
+    ops += ["cls D %s %s" % (",".join(order), own), "new d D"]
+    stem = shared[:-1]
+    probe = [stem + "x", stem + "xy", stem, "foo", "bar", "_foo", "_p", "zzq", "q", "x"]
+    t = 80
+    for _ in range(rng.randint(1, 6)):
+        op, t = rand_access(rng, "d", safe_attr(rng.choice(probe)), t)
         ops.append(op)
     return "res|" + ";".join(ops)
 
